@@ -6,6 +6,7 @@ import GontainerModel.Lemmas.Graph
 import GontainerModel.Lemmas.DepGraph
 import GontainerModel.Lemmas.SortedMap
 import GontainerModel.Model.Runtime
+import GontainerModel.Lemmas.History
 import GontainerModel.Generated.Template
 namespace GM.C05
 open GM GM.Graph GM.Output
@@ -146,5 +147,96 @@ theorem default_scope_documented (p : Runtime.Prog) (st : Runtime.St) (n : Strin
         exact ⟨c, List.mem_filterMap.mpr ⟨nService c, (mem_reachD _ _ _).mpr hp, by simp [isServiceNode, nService]⟩, by simp [hc]⟩
       rw [if_pos hany]
   · split <;> simp
+
+/-! ### whole histories (runtime model; the dependency relation acyclic, stated as ranks that decrease along it) -/
+
+/-- the first successful `Get` of a service that resolves to shared puts it into the container-wide cache -/
+theorem shared_first_get_caches (p : Runtime.Prog) (f : Nat) (st : Runtime.St) (bag : Runtime.Bag) (id : String) (s : Service)
+    (v : Runtime.RV) (st' : Runtime.St) (bag' : Runtime.Bag)
+    (hov : st.ovServices.lookup id = none) (hs : Runtime.svcByName p id = some s) (hsc : Runtime.effScope p st id = .shared)
+    (hok : Runtime.get f p st bag id = (st', bag', .ok v)) : st'.shared.lookup id = some v :=
+  Runtime.get_shared_caches p f st bag id s v st' bag' hov hs hsc hok
+
+/-- **a shared service is instantiated once per container**: once it is in the container-wide cache, then after ANY
+history of Get / GetInContext / GetTaggedBy / GetTaggedByInContext / GetParam calls and attached contexts — any
+length, any mix — it is still there with the same instance, it was never constructed again, every construction the
+history performed was of a service that was not cached where its scope caches it, and a further `Get` (in any call
+tree or context) returns that very instance -/
+theorem shared_once_per_container (p : Runtime.Prog) (rk rkP : String → Nat) (hsr : Runtime.SRanked p rk)
+    (hpr : Runtime.Ranked p rkP) (F : Nat) (ops : List Runtime.Op) (st : Runtime.St) (id : String) (v : Runtime.RV)
+    (hsc : Runtime.effScope p st id = .shared) (hc : st.shared.lookup id = some v) :
+    (Runtime.runOps F p st ops).shared.lookup id = some v ∧
+    (∃ suf, (Runtime.runOps F p st ops).evalLog = st.evalLog ++ suf ∧ ("ctor:" ++ id) ∉ suf) ∧
+    (∀ (s : Service) (bag : Runtime.Bag) (f : Nat), st.ovServices.lookup id = none → Runtime.svcByName p id = some s →
+      Runtime.get (f + 1) p (Runtime.runOps F p st ops) bag id = (Runtime.runOps F p st ops, bag, .ok v)) := by
+  have h := Runtime.runOps_inv p rk rkP hsr hpr F ops st
+  have hkeep : (Runtime.runOps F p st ops).shared.lookup id = some v := by
+    rcases h.sh id with x | x
+    · rw [x, hc]
+    · rw [hc] at x; cases x
+  refine ⟨hkeep, ?_, ?_⟩
+  · obtain ⟨suf, hl, hm⟩ := h.lg
+    refine ⟨suf, hl, fun hmem => ?_⟩
+    rcases hm _ hmem with ⟨n, hn, _⟩ | ⟨n, hn, hs⟩
+    · have := congrArg String.toList hn
+      simp at this
+    · have : id = n := (String.append_right_inj "ctor:").mp hn
+      subst this
+      rw [hs hsc] at hc; cases hc
+  · intro s bag f hov hs
+    have hsc' : Runtime.effScope p (Runtime.runOps F p st ops) id = .shared := by
+      rw [Runtime.effScope_congr p st _ h.ovS]; exact hsc
+    exact shared_once f p _ bag id s v (by rw [h.ovS]; exact hov) hs hsc' hkeep
+
+/-- **a contextual service is instantiated once per attached context**: what the bag of context `c` holds stays there,
+unchanged, across any history that does not attach `c` anew — whatever is done in other contexts or without one -/
+theorem contextual_once_per_context (p : Runtime.Prog) (rk rkP : String → Nat) (hsr : Runtime.SRanked p rk)
+    (hpr : Runtime.Ranked p rkP) (F : Nat) (ops : List Runtime.Op) (st : Runtime.St) (c : String)
+    (hnew : Runtime.Op.newCtx c ∉ ops) (id : String) (v : Runtime.RV)
+    (hc : (Runtime.bagOf st c).lookup id = some v) :
+    (Runtime.bagOf (Runtime.runOps F p st ops) c).lookup id = some v :=
+  Runtime.runOps_bags p rk rkP hsr hpr F ops st c hnew id v hc
+
+/-- **contexts never share**: a call made in context `c'` (or in no context) leaves the bag of every other context `c`
+exactly as it was — an instance built for one context cannot appear in another -/
+theorem contexts_are_separate (p : Runtime.Prog) (rk rkP : String → Nat) (hsr : Runtime.SRanked p rk)
+    (hpr : Runtime.Ranked p rkP) (F : Nat) (st : Runtime.St) (o : Runtime.Op) (c : String)
+    (hnew : o ≠ .newCtx c) (h1 : ∀ id, o ≠ .getCtx c id) (h2 : ∀ tag, o ≠ .taggedCtx c tag) :
+    Runtime.bagOf (Runtime.stepOp F p st o).1 c = Runtime.bagOf st c :=
+  (Runtime.stepOp_bags p rk rkP hsr hpr F st o c hnew).2 h1 h2
+
+/-- a plain `Get` is its own call tree: it starts from an empty bag and what it collected is dropped, so two plain
+`Get`s never share a contextual instance -/
+theorem plain_get_has_fresh_bag (F : Nat) (p : Runtime.Prog) (st : Runtime.St) (id : String) :
+    Runtime.stepOp F p st (.get id) = ((Runtime.get F p st [] id).1, (Runtime.get F p st [] id).2.2) := rfl
+
+-- non-vacuity of the history theorems: a two-service program (a depends on the shared b and carries a tag) is ranked
+def demoHist : Runtime.Prog :=
+  { out := { services := [
+      { name := "a", constructor := "fx.NewA", args := [{ code := "", raw := .str "@b", depServices := ["b"] }],
+        tags := [{ name := "t", priority := 0 }] },
+      { name := "b", constructor := "fx.NewA", scope := .shared }] },
+    imports := [], fns := [], env := [] }
+theorem demoHist_kind : Runtime.argKind { code := "", raw := .str "@b", depServices := ["b"] } = some .service := by decide
+example : Runtime.SRanked demoHist (fun n => if n = "a" then 1 else 0) := by
+  intro s hs d hd
+  simp only [demoHist, List.mem_cons, List.not_mem_nil, or_false] at hs
+  rcases hs with rfl | rfl
+  · rcases hd with ⟨a, ha, h⟩ | ⟨fl, hfl, _⟩ | ⟨c, hc, _⟩ | ⟨dc, hdc, _⟩
+    · simp only [List.mem_cons, List.not_mem_nil, or_false] at ha
+      subst ha
+      rcases h with ⟨_, rfl⟩ | ⟨h1, _⟩
+      · decide
+      · rw [demoHist_kind] at h1; cases h1
+    · simp at hfl
+    · simp at hc
+    · simp [demoHist] at hdc
+  · rcases hd with ⟨a, ha, h⟩ | ⟨fl, hfl, _⟩ | ⟨c, hc, _⟩ | ⟨dc, hdc, _⟩
+    · simp at ha
+    · simp at hfl
+    · simp at hc
+    · simp [demoHist] at hdc
+example : Runtime.Ranked demoHist (fun _ => 0) := by
+  intro prm h; simp [demoHist] at h
 
 end GM.C05
